@@ -12,7 +12,9 @@
 EXTENDS Integers, Sequences, FiniteSets, TLC
 
 CONSTANTS MaxC, NJobs, NEvents, NIdle, MaxNow,
-          FixPool     \* TRUE: _wait_impl skips tasks already collected by another waiter
+          FixPool,    \* TRUE: _wait_impl skips tasks already collected by another waiter
+          IdleOnAnyDone  \* TRUE (deviation, must fail): run _on_idle() when pool.wait(timeout) reported "something finished" --
+                         \* what TaskPool.wait really returns -- instead of asking whether the pool is empty
 
 VARIABLES now,
           queue,     \* events inside the source: sequence of [id, when]
@@ -136,7 +138,7 @@ PushersDone ==
 WaitReturns ==
   /\ lp = "wait" /\ ~crashed /\ (now >= deadline \/ \A i \in pool : Done(i))
   /\ pool' = {i \in pool : ~Done(i)}
-  /\ lp' = IF pool' = {} THEN "idle" ELSE "start"
+  /\ lp' = IF pool' = {} \/ (IdleOnAnyDone /\ \E i \in pool : Done(i)) THEN "idle" ELSE "start"
   /\ UNCHANGED <<now, queue, narrived, slot, prev, jobs, rem, kind, ntasks, t0, pushers, deadline, crashed, delivered, reported, idleStartedBusy>>
 \* _on_idle: gather_no_raise(push(idle_handler()) for every idle handler) or sleep(idle_sleep)
 OnIdle ==
